@@ -188,6 +188,14 @@ def texts_of(case, m, expanded):
     if case['kind'] != 'notrailer':
         out.append(TRAILER + m['tail'])
     out += [''.join(x) for x in drows(m, expanded)]
+    if case['kind'] == 'notrailer':
+        # records that LOOK like a trailer but are not the index trailer: the trailers of the individual tables, the
+        # marker alone, another case, a different table number (a real extract has one trailer per table)
+        r = random.Random(case['seed'] ^ 0x7177)
+        decoys = ['TRAILER RECORD IP0040T1  0000012', 'TRAILER RECORD IP0006T1', 'TRAILER RECORD', 'TRAILER RECORD IP0000T2 00001',
+                  'trailer record ip0000t1', ' TRAILER RECORD IP0000T1', 'TRAILER  RECORD IP0000T1', 'TRAILER RECORD IP0000T']
+        for _ in range(r.choice([0, 1, 1, 2, 3])):
+            out.insert(r.randrange(len(m['irows']), len(out) + 1), r.choice(decoys))
     return out
 
 
@@ -360,7 +368,7 @@ def judge(case, io_, mo):
         dom = in_domain(case, m, ex)
         want, want_rows = expected(case, m, ex)
         ok = True
-        if dom and got != want:
+        if dom and canon(got) != canon(want):
             ok = False
             if want.startswith('RAISE'):
                 ps.append({'kind': 'oracle', 'sig': 'not-refused', 'msg': '%s file %s must be refused with the library error; got %s' % (
@@ -384,7 +392,7 @@ def judge(case, io_, mo):
         mspec = (mo.pop(0) if mo else 'MISSING') if case['kind'] not in ('fuzz', 'notrailer') else None
         if not ok:
             continue
-        if mread not in ('BADOP',) and not mread.startswith('UNMODELLED') and mread != got:
+        if mread not in ('BADOP',) and not mread.startswith('UNMODELLED') and canon(mread) != canon(got):
             ps.append({'kind': 'corr', 'sig': 'param_read', 'msg': '%s: IpmParamReader differs from model param_read: impl %s / model %s' % (mode, got[-60:], mread[-60:])})
         if mcsv is not None and mcsv != 'BADOP' and not mcsv.startswith('UNMODELLED') and csv_class(mcsv) != io_['csv_' + k]:
             ps.append({'kind': 'corr', 'sig': 'param_csv', 'msg': '%s: mci_ipm_param_to_csv differs from model param_to_csv: impl %s / model %s' % (mode, io_['csv_' + k][-60:], mcsv[-60:])})
@@ -396,10 +404,20 @@ def judge(case, io_, mo):
                 ps.append({'kind': 'corr', 'sig': 'param_spec', 'msg': '%s: Coq spec (file builder / expected rows) differs from the harness builder / slicing' % mode})
     if case['kind'] == 'both' and not ps and in_domain(case, m, True):
         a, b = parse_rows(outs[True]), parse_rows(outs[False])
-        strip = lambda rows: [[kv for kv in r if not kv.startswith(hs('effective_timestamp') + '=')] for r in rows]
+        strip = lambda rows: [sorted(kv for kv in r if not kv.startswith(hs('effective_timestamp') + '=')) for r in rows]
         if a is None or b is None or strip(a) != strip(b):
             ps.append({'kind': 'oracle', 'sig': 'compressed-differs-from-expanded', 'msg': 'the two representations of the same rows give different column values'})
     return ps
+
+
+def canon(out):
+    """rows are dictionaries: the order of the entries inside a row is not observable (Python dict equality)"""
+    if not isinstance(out, str) or not out.startswith('OK ') or '|' not in out:
+        return out
+    body, _, end = out[3:].rpartition('|')
+    if body == '-':
+        return out
+    return 'OK ' + '/'.join(';'.join(sorted(r.split(';'))) for r in body.split('/')) + '|' + end
 
 
 def parse_rows(out):
